@@ -233,6 +233,12 @@ func c01WPrograms(tier string) []*wn {
 	add(wProg(wset("v", warr(wi(10), wi(20), wi(30), a)), wprint(widx(wv("v"), wb("%", b, wi(6))), widx(wv("v"), wi(-1)), W("len", "", wv("v")))))
 	add(wProg(wset("v", warr(wi(1), wi(2), wi(3), wi(4), wi(5), wi(6), wi(7), wi(8), wi(9), a)), W("setidx", "v", wb("&", b, wi(7)), c), wprint(wv("v")), W("slice", "", wv("v"), wb("&", a, wi(3)), wb("+", wi(2), wb("&", b, wi(7))))))
 	add(wProg(wset("v", warr(a, b)), wset("w", wb("+", wv("v"), c)), wset("u", wb("+", wv("v"), wv("w"))), wprint(wv("v"), wv("w"), wv("u")), W("first", "", wv("u")), W("rest", "", wv("w"))))
+	// arrays are values also where the implementation shares storage: two results built from one left operand
+	// above the small/large threshold, and a result built from a slice of a longer array
+	nine := func() *wn { return warr(wi(1), wi(2), wi(3), wi(4), wi(5), wi(6), wi(7), wi(8), wi(9)) }
+	add(wProg(wset("v", wb("+", nine(), a)), wset("w", wb("+", wv("v"), b)), wset("u", wb("+", wv("v"), c)), wprint(wv("w"), wv("u"), wv("v"))))
+	add(wProg(wset("v", wb("+", nine(), warr(a, b))), wset("s", W("slice", "", wv("v"), wi(0), wi(9))), wset("u", wb("+", wv("s"), c)), wprint(wv("u"), wv("s")), wv("v")))
+	add(wProg(wset("v", wb("+", wb("+", nine(), a), b)), wset("w", wb("+", wv("v"), warr(c, c))), wset("u", wb("+", wv("v"), warr(a))), wprint(wv("w")), wv("u")))
 	add(wProg(wset("m", W("map", "", wi(2), a, wi(1), b, ws("k"), c)), wprint(wv("m"), widx(wv("m"), wi(1)), widx(wv("m"), ws("z")), W("len", "", wv("m"))), W("setidx", "m", wi(5), a), wv("m")))
 	add(wProg(wset("s", ws("hello")), wprint(widx(wv("s"), wb("%", a, wi(7))), W("slice", "", wv("s"), wi(1), wi(3)), W("sliceopen", "", wv("s"), wi(-2)), W("len", "", wv("s")), wb("+", wv("s"), ws("!")))))
 	// errors and catch
